@@ -12,6 +12,8 @@ Lemma order_checks_eq : extracted_order_checks = modelled_order_checks.
 Proof. vm_compute. reflexivity. Qed.
 Lemma defrag_eq : extracted_defrag = modelled_defrag.
 Proof. vm_compute. reflexivity. Qed.
+Lemma early_eq : extracted_early_data = modelled_early_data.
+Proof. vm_compute. reflexivity. Qed.
 
 (* ------------------------------------------------------------------ computed facts *)
 Lemma incl_all : forallb (included modelled_gates) all_cfgs = true.
@@ -31,6 +33,9 @@ Proof. vm_cast_no_check (eq_refl true). Qed.
 
 Lemma interleave_all :
   forallb (fun c => negb (c_v13 c) || chk_interleave modelled_gates c) all_cfgs = true.
+Proof. vm_cast_no_check (eq_refl true). Qed.
+
+Lemma window_all : forallb (chk_window modelled_gates) cfgs_server13 = true.
 Proof. vm_cast_no_check (eq_refl true). Qed.
 
 Lemma witnesses_rejected_all :
@@ -80,12 +85,16 @@ Qed.
 
 Lemma noapp c s e :
   In c all_cfgs -> handshaking s = true -> In e app_syms ->
-  is_abort (fst (step modelled_gates c s e)) = true.
+  let s' := fst (step modelled_gates c s e) in
+  is_abort s' = true \/ (ed s = true /\ s' = s).
 Proof.
   intros Hc Hh He.
   pose proof noapp_all as H. rewrite forallb_forall in H. specialize (H c Hc).
   unfold chk_noapp in H. rewrite forallb_forall in H. specialize (H s (all_st_complete s)).
-  rewrite Hh in H. cbn [negb orb] in H. rewrite forallb_forall in H. exact (H e He).
+  rewrite Hh in H. cbn [negb orb] in H. rewrite forallb_forall in H. specialize (H e He).
+  cbv zeta in *. unfold step.
+  apply orb_true_iff in H. destruct H as [H|H]; [left; exact H|right].
+  apply andb_prop in H. destruct H as [H1 H2]. split; [exact H1|apply st_eqb_eq; exact H2].
 Qed.
 
 Lemma post_closed c s e :
@@ -125,7 +134,8 @@ Lemma interleave_full c s e p :
   In c all_cfgs -> c_v13 c = true ->
   handshaking s = true -> v13_at c (pc s) = true -> buf s = BPartial ->
   In p non_hs_payloads ->
-  is_abort (fst (step modelled_gates c s (e, p))) = true.
+  let s' := fst (step modelled_gates c s (e, p)) in
+  is_abort s' = true \/ (ed s = true /\ s' = s).
 Proof.
   intros Hc Hv Hh Hv13 Hb Hp.
   pose proof interleave_all as H. rewrite forallb_forall in H. specialize (H c Hc).
@@ -133,5 +143,36 @@ Proof.
   unfold chk_interleave in H. rewrite forallb_forall in H. specialize (H s (all_st_complete s)).
   rewrite Hh, Hv13, Hb in H. cbn [negb orb andb bufk_eqb] in H.
   rewrite forallb_forall in H. specialize (H e (all_epoch_complete e)).
-  rewrite forallb_forall in H. exact (H p Hp).
+  rewrite forallb_forall in H. specialize (H p Hp). cbv zeta in *. unfold step.
+  apply orb_true_iff in H. destruct H as [H|H]; [left; exact H|right].
+  apply andb_prop in H. destruct H as [H1 H2]. split; [exact H1|apply st_eqb_eq; exact H2].
+Qed.
+
+(* ------------------------------------------------------------------ the early-data window *)
+Lemma window_facts c s e :
+  In c cfgs_server13 -> handshaking s = true ->
+  let s' := fst (step modelled_gates c s e) in
+  (undec_sym c s e = true -> ed s = false -> is_abort s' = true) /\
+  (ed s' = true -> is_abort s' = false ->
+     ed s = true \/ (c_early c = true /\ pc s = S_CH)) /\
+  (pc s = S13_CH2 -> (exists a, e = (E0, PH CH a)) -> ed s' = false \/ is_abort s' = true).
+Proof.
+  intros Hc Hh.
+  pose proof window_all as H. rewrite forallb_forall in H. specialize (H c Hc).
+  unfold chk_window in H. rewrite forallb_forall in H. specialize (H s (all_st_complete s)).
+  rewrite Hh in H. cbn [negb orb] in H. rewrite forallb_forall in H.
+  specialize (H e (Sigma_complete e)). cbv zeta in H. unfold step. cbv zeta.
+  set (s' := fst (step_t (gate_tab modelled_gates c) c s e)) in *.
+  apply andb_prop in H. destruct H as [H H3]. apply andb_prop in H. destruct H as [H1 H2].
+  split; [|split].
+  - intros Hu He. rewrite Hu, He in H1. cbn [negb orb] in H1. exact H1.
+  - intros He' Ha. rewrite He', Ha in H2. cbn [negb orb] in H2.
+    rewrite orb_false_r in H2. apply orb_true_iff in H2. destruct H2 as [H2|H2].
+    + left. apply andb_prop in H2. exact (proj1 H2).
+    + right. apply andb_prop in H2. destruct H2 as [H2 H4]. apply andb_prop in H2. destruct H2 as [H2 _].
+      split; [exact H2|]. destruct (pc s); try discriminate H4. reflexivity.
+  - intros Hp [a Ha]. subst e. rewrite Hp in H3. cbn [snd fst epoch_eqb] in H3.
+    unfold implb' in H3. cbn [negb orb] in H3. apply orb_true_iff in H3. destruct H3 as [H3|H3].
+    + left. destruct (ed s'); [discriminate|reflexivity].
+    + right. exact H3.
 Qed.
